@@ -292,7 +292,50 @@ def t_condtmp(src):
     return ast.unparse(ast.fix_missing_locations(tree)) + "\n"
 
 
-MODES = {"condtmp": t_condtmp, "rettmp": t_rettmp, "splitand": t_splitand, "dropelse": t_dropelse, "yoda": t_yoda, "annotate": t_annotate, "reformat": t_reformat, "shift": t_shift, "log": t_log, "rename": t_rename, "messages": t_messages, "swapelse": t_swapelse}
+def t_argtmp(src):
+    """`f(a, g(x))` as a statement becomes `_a = g(x)` / `f(a, _a)` (first call-valued positional argument whose
+    predecessors are names/constants/attributes; evaluation order of the calls is preserved)."""
+    tree = ast.parse(src)
+
+    def simple(e):
+        return isinstance(e, (ast.Name, ast.Constant)) or (isinstance(e, ast.Attribute) and simple(e.value))
+
+    def hoist(st):
+        v = st.value if isinstance(st, (ast.Expr, ast.Assign, ast.Return, ast.AugAssign)) else None
+        if not isinstance(v, ast.Call) or not simple(v.func) or any(isinstance(x, (ast.Yield, ast.YieldFrom, ast.Await, ast.NamedExpr, ast.Lambda, ast.GeneratorExp, ast.ListComp, ast.SetComp, ast.DictComp)) for x in ast.walk(v)):
+            return None
+        if isinstance(st, ast.AugAssign) or (isinstance(st, ast.Assign) and not all(isinstance(t, ast.Name) for t in st.targets)):
+            return None
+        for i, a in enumerate(v.args):
+            if isinstance(a, ast.Starred):
+                return None
+            if isinstance(a, ast.Call):
+                if simple(a.func) or (isinstance(a.func, ast.Attribute)):
+                    v.args[i] = ast.Name(id="_a", ctx=ast.Load())
+                    return ast.Assign(targets=[ast.Name(id="_a", ctx=ast.Store())], value=a)
+                return None
+            if not simple(a):
+                return None
+        return None
+
+    for parent in ast.walk(tree):
+        lists = [getattr(parent, f, None) for f in ("body", "orelse", "finalbody")]
+        if isinstance(parent, ast.Try):
+            lists += [h.body for h in parent.handlers]
+        for stmts in lists:
+            if not isinstance(stmts, list) or isinstance(parent, (ast.Module, ast.ClassDef)):
+                continue
+            i = 0
+            while i < len(stmts):
+                pre = hoist(stmts[i])
+                if pre is not None:
+                    stmts.insert(i, pre)
+                    i += 1
+                i += 1
+    return ast.unparse(ast.fix_missing_locations(tree)) + "\n"
+
+
+MODES = {"argtmp": t_argtmp, "condtmp": t_condtmp, "rettmp": t_rettmp, "splitand": t_splitand, "dropelse": t_dropelse, "yoda": t_yoda, "annotate": t_annotate, "reformat": t_reformat, "shift": t_shift, "log": t_log, "rename": t_rename, "messages": t_messages, "swapelse": t_swapelse}
 
 
 def main():
